@@ -252,6 +252,29 @@ def _peer_text(tree, ob):
             ob.violate(SESS, fm.qual, src(c) + ' unguarded', 'a SESS_INIT whose node ID is not valid UTF-8 raises UnicodeDecodeError out of the receive callback: the session stays half negotiated and the '
                        'connection is never read again nor closed', c)
     ob.require(n >= 1, 'conversion of the peer node id not found')
+    # every other read of the field decodes as well (scapy hands out i2h(), i.e. .decode('utf-8'), on attribute access)
+    for (r, qual, func) in tree.all_functions([SESS]):
+        for a in walk_local(func):
+            if not (isinstance(a, ast.Attribute) and isinstance(a.ctx, ast.Load) and src(a) == 'self._sessinit_peer.nodeid_data'):
+                continue
+            par = getattr(a, '_parent', None)
+            if qual == fm.qual and isinstance(par, ast.Call) and pm('str(self._sessinit_peer.nodeid_data)', par) is not None:
+                continue
+            ok = False
+            prev = a
+            cur = getattr(a, '_parent', None)
+            while cur is not None and cur is not func:
+                if isinstance(cur, ast.Try) and any(prev is st or prev in ast.walk(st) for st in cur.body):
+                    for h in cur.handlers:
+                        if any((nm or 'BaseException').split('.')[-1] in ('UnicodeError', 'UnicodeDecodeError', 'ValueError', 'Exception', 'BaseException') for nm in handler_names(h)):
+                            ok = True
+                prev = cur
+                cur = getattr(cur, '_parent', None)
+            if ok:
+                ob.site(SESS, a, qual + ': peer node ID read under a handler for undecodable text')
+            else:
+                ob.violate(SESS, qual, src(a) + ' read unguarded', 'reading the node ID field of the peer SESS_INIT decodes it as UTF-8: for a peer whose node ID is not UTF-8 (which is refused with a '
+                           'contact failure) this read raises UnicodeDecodeError, here outside any handler: the refusal is not sent, the exception leaves the receive callback', a, sure=True)
 
 
 def peer_enum_lookups(tree, ob):
